@@ -5,7 +5,9 @@ import (
 	"go/token"
 	"go/types"
 	"os"
+	"sort"
 	"strings"
+	"sync"
 
 	"golang.org/x/tools/go/ssa"
 )
@@ -29,8 +31,8 @@ type Frame struct {
 }
 
 type State struct {
-	nested      bool    // inside callNested (no forks allowed)
-	lastResults []Value // results of the outermost frame's return
+	nested                                           bool    // inside callNested (no forks allowed)
+	lastResults                                      []Value // results of the outermost frame's return
 	heap                                             map[int]Value
 	frames                                           []*Frame
 	pc                                               []*Term
@@ -250,6 +252,9 @@ func (e *Engine) eval(st *State, f *Frame, v ssa.Value) Value {
 		if !ok {
 			id = st.alloc(zero(x.Type().(*types.Pointer).Elem()))
 			st.globals[x] = id
+			if uninitAudit && x.Pkg != nil && !initedPkgs[x.Pkg.Pkg.Path()] {
+				uninitReads.Store(x.Pkg.Pkg.Path()+"."+x.Name(), true)
+			}
 		}
 		return &Ptr{Obj: id}
 	case *ssa.Function:
@@ -270,6 +275,16 @@ func (e *Engine) eval(st *State, f *Frame, v ssa.Value) Value {
 func (e *Engine) forkClone(st *State, lastDecision bool) *State {
 	if st.nested {
 		panic(unsupported("fork inside a String() method called from a format intrinsic"))
+	}
+	if forkProf != nil && len(st.frames) > 0 {
+		f := st.frames[len(st.frames)-1]
+		key := f.fn.String()
+		if f.ip < len(f.block.Instrs) {
+			key += " @ " + e.prog.Fset.Position(f.block.Instrs[f.ip].Pos()).String()
+		}
+		forkProfMu.Lock()
+		forkProf[key]++
+		forkProfMu.Unlock()
 	}
 	cl := st.clone()
 	cl.varSeq = st.ivSeq
@@ -1286,6 +1301,44 @@ func (e *Engine) resolveCall(st *State, f *Frame, c *ssa.CallCommon) (Value, []V
 }
 
 var traceSub = os.Getenv("VERIF_TRACE")
+var uninitAudit = os.Getenv("VERIF_UNINIT") != ""
+var initedPkgs = map[string]bool{}
+var uninitReads sync.Map
+var forkProf map[string]int
+var forkProfMu sync.Mutex
+
+func init() {
+	if os.Getenv("VERIF_FORKPROF") != "" {
+		forkProf = map[string]int{}
+	}
+}
+
+func dumpForkProf() {
+	if uninitAudit {
+		uninitReads.Range(func(k, v any) bool {
+			fmt.Fprintln(os.Stderr, "UNINIT-GLOBAL", k)
+			return true
+		})
+	}
+	if forkProf == nil {
+		return
+	}
+	type kv struct {
+		k string
+		n int
+	}
+	var l []kv
+	for k, n := range forkProf {
+		l = append(l, kv{k, n})
+	}
+	sort.Slice(l, func(i, j int) bool { return l[i].n > l[j].n })
+	for i, x := range l {
+		if i >= 25 {
+			break
+		}
+		fmt.Fprintf(os.Stderr, "FORKS %7d %s\n", x.n, x.k)
+	}
+}
 
 type loggerCall struct{ name string }
 type constCall struct{ v Value }
